@@ -5,6 +5,7 @@ import (
 	"go/constant"
 	"go/token"
 	"go/types"
+	"regexp"
 	"sort"
 	"strconv"
 	"strings"
@@ -21,6 +22,10 @@ type Lit struct {
 	// for (X == nil) / (X == Y) atoms: operands
 	X, Y ssa.Value
 	Op   token.Token // EQL for equality atoms, LSS etc., ILLEGAL otherwise
+	// Implied: not a branch of this function but a fact established by a boolean
+	// helper that was branched on (see ExpandLit); Cond is nil, X/Y only when they
+	// could be translated into this frame.
+	Implied bool
 }
 
 func (l Lit) String() string {
@@ -593,6 +598,10 @@ type Path struct {
 func (p Path) Cond() string {
 	var s []string
 	for _, l := range p.Lits {
+		if l.Implied {
+			s = append(s, "⊢"+l.String())
+			continue
+		}
 		s = append(s, l.String())
 	}
 	return strings.Join(s, " ∧ ")
@@ -716,9 +725,11 @@ func EnumPaths(fn *ssa.Function, o EnumOpts) ([]Path, error) {
 				if contradiction {
 					continue
 				}
+				n0 := len(lits)
 				lits = append(lits, *l)
+				lits = append(lits, ExpandLit(*l)...)
 				walk(s, false, env.enter(b, s))
-				lits = lits[:len(lits)-1]
+				lits = lits[:n0]
 			} else {
 				walk(s, false, env.enter(b, s))
 			}
@@ -866,4 +877,213 @@ func EnclosingLoop(loops []*RangeLoop, in ssa.Instruction) *RangeLoop {
 		}
 	}
 	return best
+}
+
+// ---- boolean helper summaries ----
+
+var (
+	boolSums = map[*ssa.Function]*[2][]Lit{}
+	boolAlts = map[*ssa.Function]*[2][][]Lit{}
+	boolBusy = map[*ssa.Function]bool{}
+	paramTok = regexp.MustCompile(`\bp(\d+)\b`)
+)
+
+// boolSummary: for a module function with a single bool result, the literals that
+// hold on every path returning false ([0]) and on every path returning true ([1]),
+// in the callee's own frame.
+func boolSummary(g *ssa.Function) *[2][]Lit {
+	if s, ok := boolSums[g]; ok {
+		return s
+	}
+	if boolBusy[g] {
+		return nil
+	}
+	boolBusy[g] = true
+	defer delete(boolBusy, g)
+	paths, err := EnumPaths(g, EnumOpts{Max: 256})
+	if err != nil {
+		boolSums[g] = nil
+		return nil
+	}
+	type key struct {
+		a string
+		p bool
+	}
+	var common [2]map[key]Lit
+	var alts [2][][]Lit
+	seenClass := [2]bool{}
+	meet := func(class int, lits []Lit) {
+		alts[class] = append(alts[class], append([]Lit(nil), lits...))
+		cur := map[key]Lit{}
+		for _, l := range lits {
+			cur[key{l.Atom, l.Pos}] = l
+		}
+		if !seenClass[class] {
+			common[class], seenClass[class] = cur, true
+			return
+		}
+		for k := range common[class] {
+			if _, ok := cur[k]; !ok {
+				delete(common[class], k)
+			}
+		}
+	}
+	for _, pa := range paths {
+		if _, isR := pa.End.(*ssa.Return); !isR || len(pa.Ret) != 1 {
+			continue
+		}
+		if c, isC := pa.Ret[0].(*ssa.Const); isC && c.Value != nil && c.Value.Kind() == constant.Bool {
+			cl := 0
+			if constant.BoolVal(c.Value) {
+				cl = 1
+			}
+			meet(cl, pa.Lits)
+			continue
+		}
+		for cl, pos := range []bool{false, true} {
+			l := CondLit(pa.Ret[0], pos)
+			lits := append(append([]Lit(nil), pa.Lits...), l)
+			lits = append(lits, ExpandLit(l)...)
+			meet(cl, lits)
+		}
+	}
+	var out [2][]Lit
+	for cl := 0; cl < 2; cl++ {
+		for _, l := range common[cl] {
+			out[cl] = append(out[cl], l)
+		}
+		sort.Slice(out[cl], func(i, j int) bool { return out[cl][i].Atom < out[cl][j].Atom })
+	}
+	boolSums[g] = &out
+	boolAlts[g] = &alts
+	return &out
+}
+
+// ExpandLit: when l branches on the result of a module function that returns a
+// single bool, the facts that function establishes for that outcome on all its
+// paths, rendered in the caller's frame (parameters replaced by the actual
+// arguments). A predicate extracted into a helper is thereby still seen as the
+// conjunction it stands for.
+func ExpandLit(l Lit) []Lit {
+	c, ok := l.Cond.(*ssa.Call)
+	if !ok || c.Common().IsInvoke() {
+		return nil
+	}
+	g := StaticFn(c.Common())
+	if g == nil || !isModuleFunc(g) || len(g.Blocks) == 0 || g.Signature.Results().Len() != 1 || !isBool(g.Signature.Results().At(0).Type()) {
+		return nil
+	}
+	sum := boolSummary(g)
+	if sum == nil {
+		return nil
+	}
+	cl := 0
+	if l.Pos {
+		cl = 1
+	}
+	args := c.Common().Args
+	trans := func(v ssa.Value) ssa.Value {
+		switch x := v.(type) {
+		case *ssa.Const:
+			return x
+		case *ssa.Parameter:
+			for i, q := range g.Params {
+				if q == x && i < len(args) {
+					return args[i]
+				}
+			}
+		}
+		return nil
+	}
+	conv := func(in []Lit) []Lit {
+		var out []Lit
+		for _, s := range in {
+			out = append(out, transLit(s, args, trans))
+		}
+		return out
+	}
+	_ = conv
+	var out []Lit
+	for _, s := range sum[cl] {
+		atom := paramTok.ReplaceAllStringFunc(s.Atom, func(m string) string {
+			i, _ := strconv.Atoi(m[1:])
+			if i < len(args) {
+				return Expr(args[i])
+			}
+			return m
+		})
+		n := Lit{Atom: atom, Pos: s.Pos, Op: s.Op, Implied: true}
+		if x, y := trans(s.X), trans(s.Y); x != nil && y != nil {
+			n.X, n.Y = x, y
+		} else {
+			n.Op = token.ILLEGAL
+		}
+		out = append(out, n)
+	}
+	return out
+}
+
+func transLit(s Lit, args []ssa.Value, trans func(ssa.Value) ssa.Value) Lit {
+	atom := paramTok.ReplaceAllStringFunc(s.Atom, func(m string) string {
+		i, _ := strconv.Atoi(m[1:])
+		if i < len(args) {
+			return Expr(args[i])
+		}
+		return m
+	})
+	n := Lit{Atom: atom, Pos: s.Pos, Op: s.Op, Implied: true}
+	if x, y := trans(s.X), trans(s.Y); x != nil && y != nil {
+		n.X, n.Y = x, y
+	} else {
+		n.Op = token.ILLEGAL
+	}
+	return n
+}
+
+// ExpandLitDNF is the disjunctive form of ExpandLit: one list of literals per
+// path of the helper that produces the branched-on outcome. A guard is
+// established by the edge when every alternative contains a literal satisfying it.
+func ExpandLitDNF(l Lit) [][]Lit {
+	c, ok := l.Cond.(*ssa.Call)
+	if !ok || c.Common().IsInvoke() {
+		return nil
+	}
+	g := StaticFn(c.Common())
+	if g == nil || !isModuleFunc(g) || len(g.Blocks) == 0 || g.Signature.Results().Len() != 1 || !isBool(g.Signature.Results().At(0).Type()) {
+		return nil
+	}
+	if boolSummary(g) == nil {
+		return nil
+	}
+	alts := boolAlts[g]
+	if alts == nil {
+		return nil
+	}
+	cl := 0
+	if l.Pos {
+		cl = 1
+	}
+	args := c.Common().Args
+	trans := func(v ssa.Value) ssa.Value {
+		switch x := v.(type) {
+		case *ssa.Const:
+			return x
+		case *ssa.Parameter:
+			for i, q := range g.Params {
+				if q == x && i < len(args) {
+					return args[i]
+				}
+			}
+		}
+		return nil
+	}
+	var out [][]Lit
+	for _, alt := range alts[cl] {
+		var o []Lit
+		for _, s := range alt {
+			o = append(o, transLit(s, args, trans))
+		}
+		out = append(out, o)
+	}
+	return out
 }
